@@ -70,7 +70,7 @@ class FFDirector(SectionLineParser):
         'constraints': 2,
         'pairs': 2,
         'pairs_nb': 2,
-        'SETTLE': 1,
+        'settle': 1,
         'virtual_sites2': 3,
         'virtual_sites3': 4,
         'virtual_sites4': 5,
@@ -288,7 +288,7 @@ class FFDirector(SectionLineParser):
     @SectionLineParser.section_parser('moleculetype', 'pairs', context_type='block')
     @SectionLineParser.section_parser('moleculetype', 'exclusions', context_type='block')
     @SectionLineParser.section_parser('moleculetype', 'pairs_nb', context_type='block')
-    @SectionLineParser.section_parser('moleculetype', 'SETTLE', context_type='block')
+    @SectionLineParser.section_parser('moleculetype', 'settle', context_type='block')
     @SectionLineParser.section_parser('moleculetype', 'virtual_sites2', context_type='block')
     @SectionLineParser.section_parser('moleculetype', 'virtual_sites3', context_type='block')
     @SectionLineParser.section_parser('moleculetype', 'virtual_sites4', context_type='block')
@@ -307,7 +307,7 @@ class FFDirector(SectionLineParser):
     @SectionLineParser.section_parser('link', 'pairs', context_type='link')
     @SectionLineParser.section_parser('link', 'exclusions', context_type='link')
     @SectionLineParser.section_parser('link', 'pairs_nb', context_type='block')
-    @SectionLineParser.section_parser('link', 'SETTLE', context_type='link')
+    @SectionLineParser.section_parser('link', 'settle', context_type='link')
     @SectionLineParser.section_parser('link', 'virtual_sites2', context_type='link')
     @SectionLineParser.section_parser('link', 'virtual_sites3', context_type='link')
     @SectionLineParser.section_parser('link', 'virtual_sites4', context_type='link')
@@ -325,7 +325,7 @@ class FFDirector(SectionLineParser):
     @SectionLineParser.section_parser('link', '!pairs', context_type='link')
     @SectionLineParser.section_parser('link', '!exclusions', context_type='link')
     @SectionLineParser.section_parser('link', '!pairs_nb', context_type='link')
-    @SectionLineParser.section_parser('link', '!SETTLE', context_type='link')
+    @SectionLineParser.section_parser('link', '!settle', context_type='link')
     @SectionLineParser.section_parser('link', '!virtual_sites2', context_type='link')
     @SectionLineParser.section_parser('link', '!virtual_sites3', context_type='link')
     @SectionLineParser.section_parser('link', '!virtual_sites4', context_type='link')
@@ -343,7 +343,7 @@ class FFDirector(SectionLineParser):
     @SectionLineParser.section_parser('modification', 'pairs', context_type='modification')
     @SectionLineParser.section_parser('modification', 'exclusions', context_type='modification')
     @SectionLineParser.section_parser('modification', 'pairs_nb', context_type='modification')
-    @SectionLineParser.section_parser('modification', 'SETTLE', context_type='modification')
+    @SectionLineParser.section_parser('modification', 'settle', context_type='modification')
     @SectionLineParser.section_parser('modification', 'virtual_sites2', context_type='modification')
     @SectionLineParser.section_parser('modification', 'virtual_sites3', context_type='modification')
     @SectionLineParser.section_parser('modification', 'virtual_sites4', context_type='modification')
